@@ -1067,6 +1067,78 @@ pub fn xargs_main(args: &[&str]) -> i32 {
     }
 }
 
+/// Verification hooks: run the private argument readers over a reader that
+/// delivers caller-chosen chunk sizes. Compiled only with `--features verif-hooks`.
+#[cfg(feature = "verif-hooks")]
+pub mod verif_hooks {
+    use super::{
+        ArgumentKind, ArgumentReader, ByteDelimitedArgumentReader,
+        WhitespaceDelimitedArgumentReader,
+    };
+    use std::io::{self, Read};
+
+    /// A `Read` that returns at most `chunks[k]` bytes on its k-th call (then
+    /// as much as the caller asks for once the list is exhausted).
+    struct ChunkedReader<'a> {
+        data: &'a [u8],
+        pos: usize,
+        chunks: &'a [usize],
+        call: usize,
+    }
+
+    impl Read for ChunkedReader<'_> {
+        fn read(&mut self, buf: &mut [u8]) -> io::Result<usize> {
+            let remaining = self.data.len() - self.pos;
+            if remaining == 0 || buf.is_empty() {
+                return Ok(0);
+            }
+            let want = self.chunks.get(self.call).copied().unwrap_or(usize::MAX).max(1);
+            self.call += 1;
+            let n = want.min(buf.len()).min(remaining);
+            buf[..n].copy_from_slice(&self.data[self.pos..self.pos + n]);
+            self.pos += n;
+            Ok(n)
+        }
+    }
+
+    /// Returns `(argument bytes, terminated by newline/delimiter)` pairs, or the
+    /// reader's error rendered as text. `delimiter == None` selects the default
+    /// (blank/newline/quote) reader.
+    pub fn read_args(
+        input: &[u8],
+        chunks: &[usize],
+        delimiter: Option<u8>,
+    ) -> Result<Vec<(Vec<u8>, bool)>, String> {
+        let rd = ChunkedReader {
+            data: input,
+            pos: 0,
+            chunks,
+            call: 0,
+        };
+        let mut reader: Box<dyn ArgumentReader + '_> = match delimiter {
+            Some(d) => Box::new(ByteDelimitedArgumentReader::new(rd, d)),
+            None => Box::new(WhitespaceDelimitedArgumentReader::new(rd)),
+        };
+        let mut out = vec![];
+        loop {
+            match reader.next() {
+                Ok(Some(arg)) => {
+                    #[cfg(unix)]
+                    let bytes = {
+                        use std::os::unix::ffi::OsStrExt;
+                        arg.arg.as_bytes().to_vec()
+                    };
+                    #[cfg(not(unix))]
+                    let bytes = arg.arg.to_string_lossy().as_bytes().to_vec();
+                    out.push((bytes, arg.kind == ArgumentKind::HardTerminated));
+                }
+                Ok(None) => return Ok(out),
+                Err(e) => return Err(e.to_string()),
+            }
+        }
+    }
+}
+
 #[cfg(test)]
 mod tests {
     use super::*;
